@@ -140,7 +140,10 @@ fn gen_x(rng: &mut Rng) -> f64 {
         0 => 0.0,
         1 => rng.below(64) as f64 / 64.0,
         2 => rng.f64_unit(),
-        _ => *rng.pick(&[0.5, 0.25, 0.999999999, 1e-9, 0.9999999999999999, 1.0 / 3.0]),
+        // the band an ulp or a few above the sample grid (what a Converter at ratio 0.8, 0.4, 1.1 ... reaches after a few
+        // steps), down to the smallest positive doubles: there sin(PI x) / (PI x) is a quotient of two tiny numbers
+        _ => *rng.pick(&[0.5, 0.25, 0.999999999, 1e-9, 0.9999999999999999, 1.0 / 3.0,
+                         f64::EPSILON, 2.0 * f64::EPSILON, 1e-15, 7e-16, 1e-18, 1e-100, f64::MIN_POSITIVE, 5e-324, 3e-14, 1.0 - 1e-15]),
     }
 }
 fn gen_sample(rng: &mut Rng, mode: u64) -> f64 {
